@@ -5,6 +5,31 @@ ALL = ["C%02d" % i for i in range(1, 21)]
 TB = ("Trusted: Coq 8.16.1 kernel + bytecode VM (vm_compute; no native_compute); the Python harness "
       "(generators, exact float->rational conversion, epgpy drivers); NumPy/CPython. ")
 CLAIMED = {
+ "C02": dict(
+   text="Machine-checked proof (Coq) in two halves. (a) Bookkeeping: diff.py's DiffOperator.__call__/_apply_order1/combine_partials/"
+        "accumulate are transcribed literally (Model/Diff.v, dictionaries as association lists); for ANY derivation dv of the scalar "
+        "ring and every program of differentiable operators (ScalarOp, MatrixOp, shifts incl. truncation) plus Wait/PD(reset=False), "
+        "if each operator's arrays satisfy the chain rule through its declared coefficients then the partial carried for a variable "
+        "equals dv of the simulated state, and the Jacobian column equals dv(signal) (order1_run, jacobian_exact, by induction over "
+        "programs; lookup_order1 characterises the dictionary for every declaration form). (b) Analysis: the 13 closed-form "
+        "derivative arrays of T, Phi, E, P, R, TRANSLATED from the source on every run, are proved to be the derivatives "
+        "(Coquelicot is_derive) of the translated operator arrays, recovery term included. The clause 'whatever non-differentiable "
+        "operators occur' is REFUTED (jacobian_refuted_spoiler) and listed as a known finding.",
+   design_ref="DESIGN.md section 4 C02, section 9 item 10",
+   note=TB + "Translator validated by the Interval tie; Model/Diff.v tied to diff.py by exact correspondence of sm.order1 after every operator of "
+        "generated programs (all order1 forms). The composition of (a) and (b) into is_derive of the signal is by the sum/product rules and is not one "
+        "mechanised theorem. Vectorised parameters / axes= are C07's. Axioms: none for (a); classical reals + funext + classic for (b).",
+   technique="Coq proof (derivation-exactness by induction over programs; real analysis on translated coefficients) + translator + exact correspondence"),
+ "C19": dict(
+   text="Machine-checked proof (Coq) on the literal bookkeeping model of diff.py: diff_nonintrusive (the zeroth-order state of a "
+        "differentiation-enabled run is the plain run, for every program and activation), partial_independent / "
+        "jacobian_column_independent (two programs that agree on the operators' arrays and on one variable's own declarations carry "
+        "the same partial for it, under any renaming), inactive_adds_nothing; all by induction over programs, any scalar ring.",
+   design_ref="DESIGN.md section 4 C19",
+   note=TB + "Model/Diff.v tied to diff.py by exact correspondence of sm.order1/sm.order2 after every operator; the same three clauses are also "
+        "run directly on the implementation (with/without differentiation, variable alone, renamed). Second-order independence is covered by the "
+        "correspondence and the implementation-side runs only. Axioms: none.",
+   technique="Coq proof by induction over programs + exact correspondence + implementation-side differential runs"),
  "C01": dict(
    text="Machine-checked proof (Coq): for every program of the 1-D model (ScalarOp/MatrixOp with recovery term, integer shifts, "
         "spoiler, reset, PD, wait), any valid coefficients and any well-formed initial state, the Laurent synthesis of the phase "
